@@ -25,7 +25,8 @@ class Fn:
         self.impl_trait_args = d.get("impl_trait_args", [])
         # produced by a derive or a foreign macro; a `macro_rules!` of this crate expands to the crate's own, hand-written code
         dv = d.get("impl_derive")
-        self.derived = bool(d.get("impl_auto_derived")) or (bool(dv) and not (dv.get("kind") == "Bang" and dv.get("macro_krate") == facts.d.get("crate")))
+        # (the `#[automatically_derived]` attribute alone proves nothing: anyone may write it on a hand-written impl)
+        self.derived = bool(dv) and not (dv.get("kind") == "Bang" and dv.get("macro_krate") == facts.d.get("crate"))
         self.blocks = [b for b in self.mir["blocks"] if not b["cleanup"]]
         self.block_by_id = {b["id"]: b for b in self.mir["blocks"]}
         self.locals = self.mir["locals"]
@@ -99,7 +100,29 @@ class Facts:
             self.adt_by_short.setdefault(a["name"], a)
         self.impls = d["impls"]
         self.ast = d["ast"]
+        self._mark_getter_calls()
         self._resolve_sealed_defaults()
+
+    def _mark_getter_calls(self):
+        """`input.close()` on the caller's bar type is modelled as a pure read.  That is right for the price-getter traits only:
+        crate traits all of whose methods (as implemented in this crate) take `&self` alone and return f64.  Any other crate
+        trait method called on a type parameter (`S::next(&mut s, x)`, `R::reset(..)`) is NOT a getter."""
+        by_trait = {}
+        for f in self.fns:
+            if f.impl_trait:
+                by_trait.setdefault(f.impl_trait, []).append(f)
+        self.getter_traits = set()
+        for tr, fns in by_trait.items():
+            if all(f.arg_count == 1 and f.locals[1]["ty"].get("k") == "ref" and not f.locals[1]["ty"].get("mut")
+                   and f.locals[0]["ty"].get("s") == "f64" for f in fns):
+                self.getter_traits.add(tr)
+        for f in self.fns:
+            for b in f.mir["blocks"]:
+                t = b["term"]
+                if t["k"] == "call":
+                    c = t["callee"]
+                    if c.get("local") and c.get("trait") and not c.get("resolved") and c["trait"] not in self.getter_traits:
+                        c["not_getter"] = True
 
     def _resolve_sealed_defaults(self):
         """A call `<T as Tr>::m` on a type parameter, where the crate trait Tr has a blanket impl
